@@ -18,6 +18,7 @@ import (
 	"errors"
 	"fmt"
 	"net/http"
+	"os"
 	"sort"
 	"strings"
 	"sync"
@@ -458,6 +459,8 @@ type c16Program struct {
 	Cancel  bool      `json:"cancel"` // a canceller thread cancels every waiter's context
 }
 
+var c16GateUnlock = os.Getenv("VERIF_GATE_UNLOCK") == "1"
+
 type c16OpResult struct {
 	thread, idx int
 	res         string
@@ -733,6 +736,23 @@ func c16ProgramRunOne(t *testing.T, p c16Program, prefix []int, expect []gate.Po
 					case w.st == 2 && o.res != w.result:
 						if w.rel != "" && w.result == "ctx" && o.res == "ctx" {
 							continue
+						}
+						// With Unlock as a scheduling point the waiter can be parked between its
+						// lookup and its select; if its slot was completed AND its context was
+						// cancelled before it got there, both are ready and the runtime picks:
+						// either result is right (the statement: "a waiter obtains the first trace
+						// ..." / "a wait never outlives its context").
+						if c16GateUnlock && ctxCancelledBefore(order, ti) {
+							completed := ""
+							for j := 0; j < len(hist); j++ {
+								if hist[j].Op == "complete" && hist[j].Name == e.Name {
+									completed = fmt.Sprintf("trace:%d", hist[j].K)
+									break
+								}
+							}
+							if (o.res == "ctx" && strings.HasPrefix(w.result, "trace:")) || (w.result == "ctx" && o.res == completed && completed != "") {
+								continue
+							}
 						}
 						add("await-wrong-result", "T%d op %d %v returned %q; reference says %q in linearisation %v", ti, k, e, o.res, w.result, hist)
 					case w.st == 1 && w.rel == "" && o.returned:
